@@ -21,6 +21,11 @@ CLAUSES = [(f, "nan", "nan") for f in NAN_FUNCS] + [
 ]
 
 
+# exact symmetries claimed by the property (odd / even functions)
+SYMMETRIES = [("sin", "odd"), ("tan", "odd"), ("asin", "odd"), ("atan", "odd"), ("sinh", "odd"), ("tanh", "odd"), ("asinh", "odd"), ("atanh", "odd"),
+              ("erf", "odd"), ("cbrt", "odd"), ("cos", "even"), ("cosh", "even")]
+
+
 def operand(cls, x, t):
     """C condition constraining float expression x to the operand class"""
     F = "f" if t == "f32" else ""
@@ -97,6 +102,47 @@ def run(tier, seed):
             Bt.add(done,
                    wd, stem, j["out"], "", "\n".join(H) + "\n", r["target"]["name"], unwind=20, attempts=(("concrete", "sat", timeout),),
                    cbmc_flags=["--slice-formula"], plain=True)
+    # ---- exact symmetries, bit for bit: f(-X) == -f(X) (odd) / f(-X) == f(X) (even), the whole batch negated, lane k observed.
+    # Two runs of the real kernel in one harness; floating arithmetic is the shared, sign-normalised uninterpreted interpretation (two
+    # concrete copies of a polynomial kernel do not compare in SAT): a proof holds for every interpretation of + - * / fma, a failure is
+    # a verdict only if it replays on the real code.
+    for t in types:
+        n = lanes(t, arch)
+        W = TYPES[t][2]
+        sign = "0x80000000u" if W == 32 else "0x8000000000000000ull"
+        for (f, parity) in SYMMETRIES:
+            if "e_%s__%s" % (f, t) not in byname:
+                continue
+            j, r = byname["e_%s__%s" % (f, t)]
+            if not r.get("ok"):
+                continue
+            ps = r["target"]["params"]
+            rt, xt = ps[0]["type"][:-1].strip(), ps[1]["type"][:-1].strip()
+            r1, r2, xv, nv = Val(rt, "R1", r), Val(rt, "R2", r), Val(xt, "X", r), Val(xt, "NX", r)
+            H = ["void harness(void) {", "  ll_use_libm();", "  %s R1, R2; %s X, NX; u32 IN_k = nondet_u32(); u32 k = IN_k;" % (rt, xt), "  __CPROVER_assume(k < %d);" % n]
+            lv, nlv = leaves(xt, "X", r), leaves(xt, "NX", r)
+            for i, ((off, nb, lk, e), (_, _, _, ne)) in enumerate(zip(lv, nlv)):
+                ty = ("f%d" if lk == "f" else "u%d") % (nb * 8)
+                H.append("  %s IN_x%d = nondet_%s%d(); %s = IN_x%d;" % (ty, i, "f" if lk == "f" else "u", nb * 8, e, i))
+                H.append("  %s = %s;" % (ne, ("U2F%d(F2U%d(IN_x%d) ^ %s)" % (W, W, i, sign)) if lk == "f" else ("IN_x%d ^ %s" % (i, sign))))
+            for i in range(n):
+                H.append("  __CPROVER_assume(k != %d || !spec_isnan_%s(%s));" % (i, t, xv.lane(t, i)))
+            H.append("  %s(&R1, &X);" % r["target"]["name"])
+            H.append("  %s(&R2, &NX);" % r["target"]["name"])
+            for i in range(n):
+                a, b = r1.lane(t, i), r2.lane(t, i)
+                want = "(%s ^ %s)" % (a, sign) if parity == "odd" else a
+                H.append('  __CPROVER_assert(k != %d || %s == %s || (spec_isnan_%s(%s) && spec_isnan_%s(%s)), "%s(-x) == %s%s(x) bit for bit");'
+                         % (i, b, want, t, a, t, b, f, "-" if parity == "odd" else "", f))
+            H.append('  __CPROVER_assert(0, "canary: end of harness is reachable");\n}')
+            title = "%s<%s>: %s symmetry, bit for bit (whole batch negated)" % (f, t, parity)
+            stem = "s%03d_%s_%s" % (len(Bt.items), f, t)
+
+            def sdone(rr, title=title, f=f, t=t, parity=parity, n=n):
+                S.add(title, "include/xsimd/arch/generic/xsimd_generic_math.hpp / xsimd_generic_trigo.hpp", rr)
+                rep.targets[-1]["native_replay"] = lambda fl, vals, rdir: native_symmetry_replay(vals, rdir, f, t, parity, n)
+            Bt.add(sdone, wd, stem, j["out"], '#include "spec.h"\n', "\n".join(H) + "\n", r["target"]["name"], unwind=20,
+                   attempts=((("ufadd", "z3", 45),) if tier == "quick" else (("ufadd", "z3", 300), ("ufadd", "sat", timeout))), cbmc_flags=["--slice-formula"], plain=True)
     Bt.run(workers=12)
     # clauses that are not decided within the limit are not claimed (and do not make the check fail): they are listed
     for tgt in rep.targets:
@@ -104,11 +150,23 @@ def run(tier, seed):
             tgt["status"] = "undecided"
         elif tgt["status"] == "failed" and all("unwind" in f["property"] for f in tgt["failed"]):
             tgt["status"] = "undecided"      # deeper loops than the unwinding bound: not decided here
+        elif tgt["status"] == "failed" and tgt.get("mode") != "concrete" and tgt.get("native_replay"):
+            # a failure under the uninterpreted arithmetic is a verdict only if its input replays on the real code
+            f0 = next((f for f in tgt["failed"] if f.get("trace")), None)
+            rdir = os.path.join(wd, "pre_replay_%s" % sha(tgt["dem"])[:8])
+            os.makedirs(rdir, exist_ok=True)
+            try:
+                nat = tgt["native_replay"](f0, special.trace_vals(f0), rdir) if f0 else {"reproduced": None}
+            except Exception as e:
+                nat = {"reproduced": None, "error": repr(e)}
+            if not nat.get("reproduced"):
+                tgt["status"] = "undecided"
+                tgt["detail"] = "failed only under the uninterpreted arithmetic; the input does not reproduce on the real code"
     und = [t_ for t_ in rep.targets if t_["status"] == "undecided"]
     rep.notes["clauses_not_decided"] = [t_["dem"] for t_ in und]
     rep.targets = [t_ for t_ in rep.targets if t_["status"] != "undecided"]
     rep.notes["clauses"] = len(CLAUSES) * len(types)
-    rep.notes["not_claimed"] = ["symmetry clauses f(-x) = -f(x) / f(-x) = f(x) bit-for-bit", "sincos == (sin, cos)", "pow clauses", "accuracy (C10/C11)",
+    rep.notes["not_claimed"] = ["sincos == (sin, cos)", "pow clauses", "accuracy (C10/C11)",
                                 "every clause listed under clauses_not_decided"]
     rep.assumptions += ["architecture sse2 only (the kernels are the architecture-independent generic ones)", "plain CBMC obligations (assertions in a harness), not dfcc contracts",
                         "scalar rem_pio2 fallback: its loops are unwound at most 8 times (unwinding assertions on)"]
@@ -146,6 +204,52 @@ def native_clause_replay(vals, rdir, f, t, ocls, rcls, n):
            "  using B = xsimd::batch<%s, xsimd::sse2>; xsimd::%s(B::load_unaligned(x)).store_unaligned(y);" % (T, f),
            "  int k = %d; bool pre = %s; bool post = %s;" % (k, operand(ocls, "x[k]", t), result(rcls, "y[k]", t)),
            '  std::printf("x[k]=%a y[k]=%a pre=%d post=%d\\n", (double)x[k], (double)y[k], (int)pre, (int)post);',
+           '  std::printf("{\\"reproduced\\": %s}\\n", (pre && !post) ? "true" : "false"); return (pre && !post) ? 1 : 0; }']
+    with open(os.path.join(rdir, "driver.cpp"), "w") as fh:
+        fh.write("\n".join(src) + "\n")
+    with open(os.path.join(rdir, "build.sh"), "w") as fh:
+        fh.write("#!/bin/sh\ncd \"$(dirname \"$0\")\"\nR=${XSIMD_REPO:-/repo}\ng++ -std=c++14 -O2 -w -msse2 -I $R/include driver.cpp -o replay.bin && ./replay.bin\n")
+    p = subprocess.run(["sh", os.path.join(rdir, "build.sh")], stdout=subprocess.PIPE, stderr=subprocess.STDOUT, universal_newlines=True, timeout=300)
+    try:
+        os.unlink(os.path.join(rdir, "replay.bin"))
+    except OSError:
+        pass
+    out = p.stdout.strip()
+    rep_ = True if '"reproduced": true' in out else (False if '"reproduced": false' in out else None)
+    return {"reproduced": rep_, "output": out[-800:], "lane": k, "lanes": {str(i): hex(b) for i, b in lanes_bits.items()}}
+
+
+def native_symmetry_replay(vals, rdir, f, t, parity, n):
+    """runs the real xsimd::f on the counterexample batch and on its negation and compares lane k bit for bit"""
+    import subprocess, struct
+    W = TYPES[t][2]
+    lanes_bits = {}
+    k = 0
+    for name, v in vals.items():
+        m = re.search(r"IN_x(\d+)$", name)
+        if m and v is not None:
+            sv = str(v)
+            try:
+                if re.match(r"^[01]+$", sv) and len(sv) in (32, 64):
+                    bits = int(sv, 2)
+                else:
+                    fv = float(sv.rstrip("f").replace("+", "")) if not sv.lower().startswith(("nan", "-nan", "+nan")) else float("nan")
+                    bits = struct.unpack("<I", struct.pack("<f", fv))[0] if W == 32 else struct.unpack("<Q", struct.pack("<d", fv))[0]
+            except Exception:
+                return {"reproduced": None, "error": "cannot parse counterexample value %r" % sv}
+            lanes_bits[int(m.group(1))] = bits
+        elif name.endswith("IN_k") and v is not None:
+            k = int(re.sub(r"[^0-9]", "", str(v)) or 0)
+    T = TYPES[t][0]
+    U = "uint32_t" if W == 32 else "uint64_t"
+    sign = "0x80000000u" if W == 32 else "0x8000000000000000ull"
+    src = ["#include <xsimd/xsimd.hpp>", "#include <cstdio>", "#include <cstring>", "#include <cstdint>", "#include <cmath>",
+           "int main() { %s in[%d] = {%s}; %s x[%d], nx[%d], y[%d], ny[%d]; %s yb[%d], nyb[%d];" % (U, n, ", ".join("%dull" % lanes_bits.get(i, 0) for i in range(n)), T, n, n, n, n, U, n, n),
+           "  for (int i = 0; i < %d; ++i) { %s b = in[i] ^ %s; std::memcpy(&x[i], &in[i], sizeof b); std::memcpy(&nx[i], &b, sizeof b); }" % (n, U, sign),
+           "  using B = xsimd::batch<%s, xsimd::sse2>; xsimd::%s(B::load_unaligned(x)).store_unaligned(y); xsimd::%s(B::load_unaligned(nx)).store_unaligned(ny);" % (T, f, f),
+           "  std::memcpy(yb, y, sizeof yb); std::memcpy(nyb, ny, sizeof nyb); int k = %d;" % k,
+           "  bool pre = x[k] == x[k]; bool post = (nyb[k] == (%s)) || (y[k] != y[k] && ny[k] != ny[k]);" % ("yb[k] ^ %s" % sign if parity == "odd" else "yb[k]"),
+           '  std::printf("x[k]=%a f(x)=%a f(-x)=%a pre=%d post=%d\\n", (double)x[k], (double)y[k], (double)ny[k], (int)pre, (int)post);',
            '  std::printf("{\\"reproduced\\": %s}\\n", (pre && !post) ? "true" : "false"); return (pre && !post) ? 1 : 0; }']
     with open(os.path.join(rdir, "driver.cpp"), "w") as fh:
         fh.write("\n".join(src) + "\n")
